@@ -237,6 +237,10 @@ func HTMLDoc(r *rand.Rand, o HTMLOpts) (doc string, toks []XTok) {
 			}
 			sb2.WriteString(Pick(r, alpha))
 		}
+		if name == "script" && r.Intn(5) == 0 {
+			// an escaped comment that is still open when the end tag arrives: the end tag ends the element
+			sb2.WriteString("<!--" + htmlChars(r, []string{"a", " ", "c", "<b>", "- ", "\n"}, r.Intn(4)))
+		}
 		s := sb2.String()
 		// outside escaped comments an "<!--" opener would change how "</script>" look-alikes are read: keep generated
 		// openers only from the branch above
